@@ -12,7 +12,8 @@ def run(ck):
     sc.run_property(ck, ORACLE, MODES)
     ck.run_fixed({"factory_error_fails_the_component": "C07:error-lost",
                   "timeout_is_a_timeouterror_wherever_the_component_hangs": "C07:timeout-not-a-timeouterror",
-                  "nested_start_component_keeps_its_own_timeout": "C07:timeout-ignored"})
+                  "nested_start_component_keeps_its_own_timeout": "C07:timeout-ignored",
+                  "timeout_watches_every_tree": "C07:timeout-ignored"})
 
 
 def replay(ck, obj):
